@@ -49,7 +49,7 @@ func main() {
 	keysets := map[string][]string{
 		"string": {"k1", "k2", "K1", "k3"}, "keys": {"k1", "k2", "K1", "s1"},
 		"list": {"l1", "l2", "L1"}, "hash": {"h1", "h2", "H1"}, "set": {"s1", "s2", "s3", "S1"},
-		"zset": {"z1", "z2", "Z1"}, "stream": {"x1", "x2", "X1"}, "zsetdeep": {"zd"}, "lifecycle": {"q1", "q2"},
+		"zset": {"z1", "z2", "Z1"}, "stream": {"x1", "x2", "X1"}, "zsetdeep": {"zd"}, "lifecycle": {"q1", "q2"}, "listdeep": {"ld"}, "streamdeep": {"xd"},
 	}
 	panics := 0
 	wireProblems := 0
